@@ -101,6 +101,7 @@ def run(ctx, rep):
 
     valid_size_rules(P, rep, 'R-C17-2v')
     chsize_domain_rule(P, rep, 'R-C17-3d', ctx.tier)
+    grow_rule(P, rep, 'R-C17-5')
     # parity_chsize itself is decided semantically by R-C17-3d (domain interpretation); no expression-shape rules on it
     g = P.fn('parity_split_is_fixed')
     rep.analysed(g)
@@ -296,3 +297,54 @@ def chsize_domain_rule(P, rep, rid, tier='quick'):
     if bad:
         rep.fail(rid, 'parity_chsize post-condition', f.file, bad, function='parity_chsize', construct='chsize domain')
     rep.extra['chsize_configurations'] = nrun
+
+
+def grow_rule(P, rep, rid):
+    """growing one split file: the non-allocating fallback (ftruncate) is used only when the file system cannot fallocate at all;
+    every other failure of fallocate -- in particular lack of space -- makes the growth fail, which is what lets the caller stop
+    at the limit of this split and continue in the next one.  parity_handle_grow interpreted with fallocate/ftruncate modelled."""
+    from .. import region as RG
+    rep.rule(rid, 'parity_handle_grow: fallocate success => success without ftruncate; EOPNOTSUPP / ENOSYS => ftruncate to the requested size; any other error (ENOSPC, EIO, EFBIG, EDQUOT, EINTR) => failure and no ftruncate', 8)
+    f = P.fn('parity_handle_grow')
+    rep.analysed(f)
+    if not list(f.calls('fallocate')):
+        rep.ok(rid, 'no fallocate in this build', 'the build has no fallocate: growth is ftruncate only')
+        return
+    UNSUPPORTED = {95: 'EOPNOTSUPP', 38: 'ENOSYS'}
+    OTHER = {28: 'ENOSPC', 5: 'EIO', 27: 'EFBIG', 122: 'EDQUOT', 4: 'EINTR'}
+    cases = [(0, None)] + [(-1, e) for e in list(UNSUPPORTED) + list(OTHER)]
+    for rv, e in cases:
+        calls = []
+        def ext(ins, args, rv=rv, e=e):
+            c = ins.callee
+            if c == '__errno_location':
+                return (RG.P_(('glob', 'errno'), 0),)
+            if c == 'fallocate':
+                calls.append(('fallocate', args[2], args[3]))
+                if e is not None:
+                    R.mem[(('glob', 'errno'), 0)] = e
+                return (rv & 0xffffffff,)
+            if c in ('ftruncate', 'ftruncate64'):
+                calls.append(('ftruncate', RG.signed(args[1], 64)))
+                return (0,)
+            if c in ('log_fatal', 'log_tag'):
+                return (0,)
+            if c == 'strerror':
+                return (RG.P_(('str', 'strerror'), 0),)
+            return None
+        R = RG.Region(P, extern=ext)
+        R.mem[(('glob', 'errno'), 0)] = 0
+        sp = RG.P_(('obj', 'split'), 0); R.zero_regions.add(sp.reg)
+        try:
+            r = R.run(f, 0, [sp, 4096, 12288, 0])
+        except RG.Unsupported as ex:
+            raise AnalysisBroken('cannot interpret parity_handle_grow: %s' % ex)
+        r = RG.signed(r & 0xffffffff, 32)
+        trunc = [c for c in calls if c[0] == 'ftruncate']
+        if e is None:
+            ok = r == 0 and not trunc; what = 'fallocate succeeds'
+        elif e in UNSUPPORTED:
+            ok = r == 0 and trunc == [('ftruncate', 12288)]; what = 'fallocate fails with %s' % UNSUPPORTED[e]
+        else:
+            ok = r != 0 and not trunc; what = 'fallocate fails with %s' % OTHER[e]
+        rep.check(ok, rid, what, f.file, 'returns %d, calls %s' % (r, calls), function='parity_handle_grow', construct='grow: %s' % what)
